@@ -77,14 +77,17 @@ def periodic_and_coarse(prop, tier, seed):
     return dict(bounded=_merge(b1, b2))
 
 
-@provider('C14')
+@provider('C14', 'C04')
 def split(prop, tier, seed):
     rng = random.Random(seed)
-    cases = [dict(hours=h, freq=f, interval='d', storage=st, pseed=rng.randint(0, 999))
+    cases = [dict(hours=h, freq=f, interval='d', storage=st, orderbook=rng.choice([None, 'last', 'first']), pseed=rng.randint(0, 999))
              for (h, f) in ((48, 'h'), (49, 'h'), (55, 'h'), (52, '4h'), (24, 'h'), (30, 'h')) for st in (False, True)]
     rng.shuffle(cases)
-    return dict(bounded=run_cases(sc.check_split, cases[:_n(tier, 8, 12)], 'split vs unsplit on a two-node portfolio; horizons aligned / one step over / several steps over the interval size',
-                                  'horizons up to 55 h, interval d', 60 if tier == 'quick' else 300))
+    cases = [dict(hours=49, freq='h', interval='d', storage=False, orderbook='last', pseed=7), dict(hours=72, freq='4h', interval='d', storage=True, orderbook='first', pseed=8)] + cases
+    b = run_cases(sc.check_split, cases[:_n(tier, 10, 14)], 'split vs unsplit on a two-node portfolio (optionally with a storage and with an order book as first / last asset, one order per day); horizons aligned / one step over / several steps over the interval size; value, balance, step numbering, DCF accounting of the split problem',
+                  'horizons up to 72 h, interval d', 60 if tier == 'quick' else 300)
+    b['failures'] = [f for f in b['failures'] if f['name'].startswith(prop) or f.get('error')]
+    return dict(bounded=b)
 
 
 @provider('C15')
@@ -191,8 +194,9 @@ def optimize_histories(prop, tier, seed):
 def take_periods(prop, tier, seed):
     rng = random.Random(seed)
     cases = [dict(T=rng.randint(3, 7), nonuniform=rng.random() < 0.7, asset_start=rng.choice([0, 1, 2]), n_periods=rng.randint(1, 3), kind=rng.choice(['min', 'max']),
-                  ec=rng.choice([0., 0.5]), seed=rng.randint(0, 9999)) for _ in range(_n(tier, 40, 400))]
-    b = run_cases(sc.check_take, cases, 'Contract with 1-3 min/max take periods placed before / inside / straddling / after the horizon, asset window starting at step 0-2, uniform and non-uniform step lengths, one and two variables per step: rows and prorated right-hand sides vs the statement',
+                  ec=rng.choice([0., 0.5]), seed=rng.randint(0, 9999), asset_start_before=rng.choice([0, 0, 3, 30]), asset_end_after=rng.choice([0, 0, 2, 40]))
+             for _ in range(_n(tier, 60, 400))]
+    b = run_cases(sc.check_take, cases, 'Contract with 1-3 min/max take periods placed before / inside / straddling / after the horizon, asset window starting at step 0-2 or before the horizon and ending with / after it, uniform and non-uniform step lengths, one and two variables per step: rows and prorated right-hand sides vs the statement',
                   'grids of 3-7 steps', 40 if tier == 'quick' else 200)
     b['failures'] = [f for f in b['failures'] if f['name'].startswith(prop) or f.get('error')]
     return dict(bounded=b)
@@ -249,18 +253,22 @@ D30_CASE = dict(T=8, seed=1853, window=(1, 7), eff=0.9, start_level=1.0, end_lev
 def storage_physics(prop, tier, seed):
     rng = random.Random(seed + 31)
     cases = [dict(D30_CASE)]
-    for _ in range(_n(tier, 60, 400)):
-        T = rng.randint(4, 8)
-        a = rng.choice([0, 0, 1])
-        b = rng.choice([T, T, T - 1])
-        case = dict(T=T, seed=rng.randint(0, 9999), window=(a, b), eff=rng.choice([1., .9]), start_level=rng.choice([0., 1.]), inflow=rng.choice([0., 0., .2]),
-                    cost_in=rng.choice([0., .1]), no_simult=rng.random() < .25, max_dur=rng.choice([None, None, None, 2.]), block=rng.choice([None, None, '2h', '3h']),
-                    two_nodes=rng.random() < .25, order=rng.random() < .5)
-        case['end_level'] = case['start_level'] if rng.random() < .6 else 0.
-        if case['block'] and case['end_level'] != case['start_level'] and (b - a) % int(case['block'][0]) == 0:
-            # the family of known finding D30 (window end on a block boundary, start level != end level) is represented by D30_CASE only
-            case['end_level'] = case['start_level']
-        cases.append(case)
+    import itertools
+    grid = list(itertools.product((False, True), (False, True), (1., .9), (0., .1)))      # two nodes x no-simultaneous x efficiency x charging cost
+    rng.shuffle(grid)
+    for rep in range(_n(tier, 4, 25)):
+        for (two, nosim, eff, ci) in grid:
+            T = rng.randint(4, 8)
+            a = rng.choice([0, 0, 1])
+            b = rng.choice([T, T, T - 1])
+            case = dict(T=T, seed=rng.randint(0, 9999), window=(a, b), eff=eff, start_level=rng.choice([0., 1.]), inflow=rng.choice([0., 0., .2]),
+                        cost_in=ci, no_simult=nosim, max_dur=rng.choice([None, None, None, 2.]), block=rng.choice([None, None, '2h', '3h']),
+                        two_nodes=two, order=rng.random() < .5)
+            case['end_level'] = case['start_level'] if rng.random() < .6 else 0.
+            if case['block'] and case['end_level'] != case['start_level'] and (b - a) % int(case['block'][0]) == 0:
+                # the family of known finding D30 (window end on a block boundary, start level != end level) is represented by D30_CASE only
+                case['end_level'] = case['start_level']
+            cases.append(case)
     return dict(bounded=run_cases(sc.check_storage_physics, cases, 'optimised storage portfolios (one/two nodes, efficiency, start/end level, inflow, charging cost, no-simultaneous option, maximum holding duration, time blocks of 2-3 h, windows, asset order): physical level within [0, size] and at the end level at the end of every block, rates within rate x step length, reported fill level = physical level, holding duration respected',
                                   'hourly grids of 4-8 steps', 60 if tier == 'quick' else 400))
 
@@ -296,3 +304,11 @@ def prices_cast(prop, tier, seed):
                   'horizons of 5-49 h', 20)
     b['failures'] = [f for f in b['failures'] if f['name'].startswith(prop) or f.get('error')]
     return dict(bounded=b)
+
+
+@provider('C09')
+def permutations(prop, tier, seed):
+    rng = random.Random(seed + 61)
+    cases = [dict(T=rng.choice([4, 6, 8]), seed=rng.randint(0, 99999), trials=3) for _ in range(_n(tier, 12, 80))]
+    return dict(bounded=run_cases(sc.check_permutation, cases, 'random portfolios of 4-7 assets (incl. two assets with their own coarser frequency, the same window and different waccs; order book; transport) built from fresh objects under 3 random permutations x naming schemes (descriptive / numeric with prefixes 1, 22, 333 / a, a_a, a_a_a; nodes 1 and 11): same optimal value',
+                                  'hourly grids of 4-8 steps', 50 if tier == 'quick' else 300))
